@@ -132,7 +132,7 @@ def gen_scenarios(chk, wd, gen_module, *, cfg_text=None, label="gen", workers=8,
     return scns
 
 
-def run_sim(chk, wd, scns, trace_module, *, label="sim", shards=12, sig_of=None, what_of=None, keep_traces=False):
+def run_sim(chk, wd, scns, trace_module, *, label="sim", shards=12, sig_of=None, what_of=None, keep_traces=False, trace_cfg=None):
     """Execute scenarios on the real code (h3v sim) and validate every recorded trace with a TLC trace spec.
     Scenarios the spec cannot explain become violations (with a self-contained replay file)."""
     if not scns:
@@ -148,7 +148,7 @@ def run_sim(chk, wd, scns, trace_module, *, label="sim", shards=12, sig_of=None,
             for s in parts[k]:
                 f.write(json.dumps(s) + "\n")
         vlib.h3v("sim", sf, tf)
-        r = vlib.tlc(trace_module, None, name=f"{label}.{k}.validate", wd=wd, workers=1, env={"TRACE": tf}, deque=True, xmx="3g")
+        r = vlib.tlc(trace_module, trace_cfg, name=f"{label}.{k}.validate", wd=wd, workers=1, env={"TRACE": tf}, deque=True, xmx="3g")
         return k, tf, r
 
     with ThreadPoolExecutor(max_workers=min(shards, 14)) as ex:
@@ -176,7 +176,7 @@ def run_sim(chk, wd, scns, trace_module, *, label="sim", shards=12, sig_of=None,
                 why = vlib._unesc.sub(lambda m: m.group(1), why)
                 sig = sig_of(s, traces.get(sid, []), why) if sig_of else f"{label}:rejected"
                 what = what_of(s, traces.get(sid, []), why) if what_of else f"scenario {sid} ({json.dumps({k: v for k, v in s.items() if k not in ('steps', 'handlers', 'default_handler', 'cfg')})[:200]}) is not a behaviour of {trace_module}: {why[:120]}"
-                chk.violation(sig, what, {"kind": "scenario", "trace_module": trace_module, "scenario": s, "trace": traces.get(sid, []), "why": why})
+                chk.violation(sig, what, {"kind": "scenario", "trace_module": trace_module, "trace_cfg": trace_cfg, "scenario": s, "trace": traces.get(sid, []), "why": why})
         if not keep_traces:
             try:
                 os.remove(tf)
@@ -195,9 +195,21 @@ def replay_scenario(path, chk):
     if rep.get("kind") != "scenario":
         return replay_vector(path, chk)
     wd = vlib.workdir(chk.prop + "-replay")
-    n = run_sim(chk, wd, [rep["scenario"]], rep["trace_module"], label="replay", shards=1, keep_traces=True)
+    n = run_sim(chk, wd, [rep["scenario"]], rep["trace_module"], label="replay", shards=1, keep_traces=True, trace_cfg=rep.get("trace_cfg"))
     if chk.violations:
         print(f"VIOLATION property={chk.prop} replay={path}  # reproduced: {chk.violations[0]['what'][:200]}")
         return 1
     print("replay: the recorded scenario is now a behaviour of the specification")
     return 0
+
+
+def run_mc(chk, wd, module, cfg=None, *, label="mc", workers=4, must_cover=()):
+    """Design-level model checking of a system spec (invariants + temporal properties); vacuity = tool error."""
+    r = vlib.tlc(module, cfg, name=label, wd=wd, workers=workers, coverage=True)
+    if not r.ok:
+        raise vlib.ToolError(f"design-level model checking of {module} failed (the specification itself violates its properties):\n{r.error}")
+    for a in must_cover:
+        if r.coverage.get(a, 0) == 0:
+            raise vlib.ToolError(f"vacuity: action {a} of {module} was never taken")
+    chk.add_tlc(label, r)
+    return r
